@@ -669,6 +669,37 @@ fn c05(r: &mut Rng, thorough: bool, w: W) -> std::io::Result<()> {
         let m = message(r, &MsgOpts { storage: None, big: false, max_args: 4 });
         writeln!(w, "CUTALL {}", p_message(&m))?;
     }
+    // the longest messages there are: the 16-bit length field at and near its limit (with a storage
+    // header the whole message is longer than 65535 bytes)
+    for storage in [true, false] {
+        for full_header in [false, true] {
+            for total in [32768usize, 65519, 65520, 65521, 65534, 65535] {
+                let head = 4 + if full_header { 12 + 10 } else { 0 };
+                let sh = storage.then(|| StorageHeader {
+                    timestamp: DltTimeStamp { seconds: 9, microseconds: 8 },
+                    ecu_id: "EC".into(),
+                });
+                let m = Message::new(
+                    MessageConfig {
+                        version: 1,
+                        counter: 200,
+                        endianness: if r.flip() { Endianness::Big } else { Endianness::Little },
+                        ecu_id: full_header.then(|| "ECU9".to_string()),
+                        session_id: full_header.then_some(77),
+                        timestamp: full_header.then_some(99),
+                        payload: PayloadContent::NonVerbose(0x01020304, vec![0x5A; total - head - 4]),
+                        extended_header_info: full_header.then(|| ExtendedHeaderConfig {
+                            message_type: MessageType::Log(LogLevel::Debug),
+                            app_id: "APP".into(),
+                            context_id: "CTX".into(),
+                        }),
+                    },
+                    sh,
+                );
+                writeln!(w, "CUTS {} {}", if thorough { 257 } else { 8191 }, p_message(&m))?;
+            }
+        }
+    }
     Ok(())
 }
 
@@ -702,6 +733,32 @@ fn c15(r: &mut Rng, thorough: bool, w: W) -> std::io::Result<()> {
             0 | 1 => {
                 let a = argument(r, i % 200 == 0);
                 writeln!(w, "ARGLEN {}", p_argument(&a))?;
+            }
+            2 if i % 16 == 2 => {
+                // a verbose configuration with arguments whose value / optional parts do not match
+                // their type info
+                let (mut c, sh) = message_config(r);
+                let mut args: Vec<Argument> = (0..r.range(1, 4)).map(|_| argument(r, false)).collect();
+                let k = r.below(args.len() as u64) as usize;
+                let a = &mut args[k];
+                match r.below(6) {
+                    0 => a.type_info.kind = crate::gen::kind(r),
+                    1 => a.value = argument(r, false).value,
+                    2 => a.type_info.has_variable_info = !a.type_info.has_variable_info,
+                    3 => a.fixed_point = None,
+                    4 => a.unit = None,
+                    _ => {
+                        a.type_info.kind = crate::gen::kind(r);
+                        a.type_info.has_variable_info = !a.type_info.has_variable_info;
+                    }
+                }
+                c.payload = PayloadContent::Verbose(args);
+                writeln!(
+                    w,
+                    "NEWX {} {}",
+                    crate::ops::p_message_config(&c),
+                    p_opt(&sh, p_storage_header)
+                )?;
             }
             2 => {
                 let (c, sh) = message_config(r);
@@ -893,6 +950,29 @@ fn c13(r: &mut Rng, thorough: bool, w: W) -> std::io::Result<()> {
                         hex(&d[..cut])
                     )?;
                     cut += step;
+                }
+            }
+        }
+    }
+    // the extreme declared lengths of a string / raw signal (the 16-bit prefix at its limit):
+    // content complete, one byte short, prefix only, followed / preceded by another signal
+    for e in [Endianness::Little, Endianness::Big] {
+        let put16 = |n: u16| if e == Endianness::Big { n.to_be_bytes() } else { n.to_le_bytes() };
+        for k in [TypeInfoKind::Raw, TypeInfoKind::StringType] {
+            let t = mk(&k);
+            let u8t = mk(&TypeInfoKind::Unsigned(TypeLength::BitLength8));
+            for len in [0x7FFFu16, 0x8000, 0xFFFC, 0xFFFD, 0xFFFE, 0xFFFF] {
+                let fill = 0x41 + r.below(26) as u8;
+                for have in [0usize, 1, len as usize - 1, len as usize, len as usize + 1] {
+                    let mut d = put16(len).to_vec();
+                    d.extend(std::iter::repeat(fill).take(have));
+                    writeln!(w, "NVA {} 1 {} {}", p_endian(e), p_type_info(&t), hex(&d))?;
+                    if have >= len as usize - 1 {
+                        writeln!(w, "NVA {} 2 {} {} {}", p_endian(e), p_type_info(&t), p_type_info(&u8t), hex(&d))?;
+                        let mut d2 = vec![0x07u8];
+                        d2.extend(&d);
+                        writeln!(w, "NVA {} 2 {} {} {}", p_endian(e), p_type_info(&u8t), p_type_info(&t), hex(&d2))?;
+                    }
                 }
             }
         }
@@ -1453,8 +1533,39 @@ fn c06(r: &mut Rng, thorough: bool, w: W) -> std::io::Result<()> {
     for f in fixed {
         writeln!(w, "FWD {}", hex(&f))?;
     }
+    // long junk: more than one maximal message (65535 + 16 bytes) in front of the pattern
+    for len in [65535usize, 65547, 65548, 65551, 65552, 70000, 140000] {
+        let fill = r.next() as u8 | 0x80;
+        let mut j = vec![fill; len];
+        j[len - 3..].copy_from_slice(&pat[..3]); // a partial pattern right before the real one
+        j[len / 2] = 0x44;
+        let m = message(r, &MsgOpts { storage: Some(true), big: false, max_args: 3 });
+        let mut v = j.clone();
+        v.extend_from_slice(&pat);
+        v.extend_from_slice(&[1, 2, 3]);
+        writeln!(w, "FWD {}", hex(&v))?;
+        writeln!(w, "FWD {}", hex(&j))?;
+        writeln!(w, "JUNK {} {} {}", hex(&j), p_message(&m), hex(&suffix(r)))?;
+        let m2 = message(r, &MsgOpts { storage: Some(true), big: false, max_args: 3 });
+        writeln!(w, "STREAM 2 {} {} {} {}", hex(&j[..len - 3]), p_message(&m), hex(&j), p_message(&m2))?;
+    }
+    let ids = vec!["A".to_string(), "ABC".to_string(), "x".to_string(), "".to_string()];
     for i in 0..n {
         match i % 8 {
+            5 if i % 16 == 5 => {
+                // with a filter (half of them drop the message): same verdict, same remainder
+                let m = message(r, &MsgOpts { storage: Some(true), big: false, max_args: 4 });
+                let j = junk_no_pattern(r, true);
+                let f = if r.chance(1, 8) { None } else { Some(crate::gen::filter(r, &ids)) };
+                writeln!(
+                    w,
+                    "JUNKF {} {} {} {}",
+                    p_opt(&f, p_filter),
+                    hex(&j),
+                    p_message(&m),
+                    hex(&suffix(r))
+                )?;
+            }
             0..=4 => {
                 // search over strings rich in pattern fragments
                 let len = r.below(40) as usize;
